@@ -675,6 +675,24 @@ pub fn run(rng: &mut Rng, out: &mut Out, thorough: bool) {
             emit(out, "zero_free_block", &ops, normal, rng);
         }
     }
+    // the block-filling rule at its edges: a run whose gap (or length - 1) sits at a value where the number of code
+    // units changes arrives when the block has one unit too few / exactly enough / one to spare
+    let edge = Plan { all_args: false, max_runs: 8, iter_n: 80, sel_iter_n: 2 };
+    for v in rl_unit_boundaries(20) {
+        for in_len in [false, true] {
+            for slack in [-1i64, 0, 1] {
+                if !thorough && slack == 1 && !rng.chance(1, 4) {
+                    continue;
+                }
+                let lead = if rng.chance(1, 4) { 1 } else { 0 };
+                let after = 1 + rng.below(6) as usize;
+                let (len, runs) = rl_directed(rng, v, in_len, slack, lead, after);
+                let mut ops: Vec<Op> = runs.iter().map(|(s, l)| Op::TrySet(*s, *l)).collect();
+                ops.push(Op::SetLen(len));
+                emit(out, "block_edge", &ops, edge, rng);
+            }
+        }
+    }
     // copy_bit_vec route: positions one by one, then set_len
     for _ in 0..(if thorough { 30 } else { 10 }) {
         let n = rng.range(0, 400) as usize;
